@@ -31,7 +31,8 @@ def gen_response(r, vid, big):
     framing = "cl" if nobody else r.choice(["cl", "cl", "chunked", "chunked", "close"])
     spec = {"status": status, "reason": "R", "headers": hs, "body": body, "framing": framing}
     if framing == "chunked":
-        spec["chunks"] = [r.choice([1, 2, 7, 100, 4096, 65536, r.randrange(1, 70000)]) for _ in range(40)]
+        # sizes at and a few bytes around the buffer-size boundaries, besides tiny and arbitrary ones
+        spec["chunks"] = [r.choice([1, 2, 7, 100, 4096, 65536, r.randrange(1, 70000), r.choice([4096, 8192, 16384, 65536]) + r.randrange(-4, 5)]) for _ in range(40)]
     if r.random() < 0.3:
         spec["segments"] = [r.randrange(1, 3000) for _ in range(30)]
     return spec
